@@ -24,9 +24,10 @@ rm -f "$ROOT/.scratch/build.$$.log"
 if [ "$TIER" = "thorough" ]; then ulimit -v 41943040 2>/dev/null || true; else ulimit -v 12582912 2>/dev/null || true; fi
 LOG="$ROOT/.scratch/run.$$.log"
 if [ "$TIER" = "--replay" ]; then
-  "$BIN" "$ID" --replay "${2:?replay file}" 2>&1 | tee "$LOG"; rc=${PIPESTATUS[0]}
+  "$BIN" "$ID" --replay "${2:?replay file}" </dev/null 2>&1 | tee "$LOG"; rc=${PIPESTATUS[0]}
 else
-  "$BIN" "$ID" "$TIER" 2>&1 | tee "$LOG"; rc=${PIPESTATUS[0]}
+  # standard input is closed off: a library that starts reading it (a "-" path convention) must not block the check
+  "$BIN" "$ID" "$TIER" </dev/null 2>&1 | tee "$LOG"; rc=${PIPESTATUS[0]}
 fi
 # A fatal Go runtime error (stack overflow, out of memory, concurrent map access) cannot be recovered
 # inside the process. If the goroutine that died was executing biostuff code (a /repo/ frame in the first
@@ -49,7 +50,7 @@ fi
 if [ $rc -ne 0 ] && [ $rc -ne 1 ] && grep -q '^fatal error:' "$LOG" && [ "$TIER" != "--replay" ] && [ -z "${VERIF_SERIAL_RERUN:-}" ]; then
   echo "RERUN property=$ID: the checker died with $(grep -m1 '^fatal error:' "$LOG") outside biostuff frames; running again with one worker"
   rm -f "$LOG"
-  VERIF_SERIAL_RERUN=1 GOMAXPROCS=1 "$BIN" "$ID" "$TIER" 2>&1 | tee "$LOG"; rc=${PIPESTATUS[0]}
+  VERIF_SERIAL_RERUN=1 GOMAXPROCS=1 "$BIN" "$ID" "$TIER" </dev/null 2>&1 | tee "$LOG"; rc=${PIPESTATUS[0]}
 fi
 rm -f "$LOG"
 exit $rc
